@@ -148,6 +148,9 @@ pub fn compare(spec: &WSpec, got: &Witness) -> Option<(String, String)> {
     if got.failed_safety != spec.failed {
         return Some(("failed-set||".into(), format!("failed properties {:?} read back as {:?}", spec.failed, got.failed_safety)));
     }
+    // a mismatch of a name containing @ or # (known suspicious sub-class) is reported only when
+    // nothing else differs, so that it does not mask value comparisons
+    let mut deferred: Option<(String, String)> = None;
     // states
     let degenerate = |v: &SVal| matches!(v, SVal::Arr { indices, .. } if indices.is_empty());
     let min_len = spec.states.iter().rposition(|(_, v)| !degenerate(v)).map(|p| p + 1).unwrap_or(0);
@@ -163,7 +166,12 @@ pub fn compare(spec: &WSpec, got: &Witness) -> Option<(String, String)> {
         if !degenerate(v) {
             let want = name.clone().unwrap_or(format!("state_{i}"));
             if got.init_names[i].as_deref() != Some(want.as_str()) {
-                return Some((format!("state-name|{tc}|{nc}"), format!("state {i} named `{want}` is read back as {:?}", got.init_names[i])));
+                let f = (format!("state-name|||{nc}"), format!("state {i} ({tc}) named `{want}` is read back as {:?}", got.init_names[i]));
+                if nc == "name-at-hash" {
+                    deferred.get_or_insert(f);
+                } else {
+                    return Some(f);
+                }
             }
         }
         match (v, &got.init[i]) {
@@ -221,10 +229,15 @@ pub fn compare(spec: &WSpec, got: &Witness) -> Option<(String, String)> {
     for (i, (name, w)) in spec.inputs.iter().enumerate() {
         let want = name.clone().unwrap_or(format!("input_{i}"));
         if got.input_names[i].as_deref() != Some(want.as_str()) {
-            return Some((format!("input-name|bv|{}|{}", wclass(*w), name_class(name)), format!("input {i} named `{want}` is read back as {:?}", got.input_names[i])));
+            let f = (format!("input-name|||{}", name_class(name)), format!("input {i} (bv<{w}>) named `{want}` is read back as {:?}", got.input_names[i]));
+            if name_class(name) == "name-at-hash" {
+                deferred.get_or_insert(f);
+            } else {
+                return Some(f);
+            }
         }
     }
-    None
+    deferred
 }
 
 /// round trip of one witness; Ok(text) or failure (class, what)
